@@ -219,7 +219,9 @@ IdxNames == {N(<<48>>), N(<<49>>), N(<<50>>), N(<<48, 49>>), N(<<43, 49>>), N(<<
    \* "0" "1" "2" "01" "+1" "1.0" "1e0" "-0" "4294967294" "4294967295" "4294967296" " 1"
 LenName == N(S_length)
 LenVals == {IntV(0), IntV(1), IntV(2), IntV(3), NumV(U32Max), NumV(Pow2(32)), IntV(-1), NumV(NumAdd(I(1), Half)), NumV(NaN),
-            StrV(<<50>>), StrV(<<120>>), BoolV(TRUE), Null, Undef, NumV(NZero), StrV(<<50, 46, 48>>)}
+            StrV(<<50>>), StrV(<<120>>), BoolV(TRUE), Null, Undef, NumV(NZero), StrV(<<50, 46, 48>>),
+            CoNum(1, 2), CoThrow(1), CO(1, RetP(NumV(NumAdd(I(1), Half))), RetP(StrV(<<120>>))), CO(1, RetP(StrV(<<49>>)), Inh)}
+   \* the last four: objects whose valueOf returns 2 / throws / returns 1.5 / returns "1" (15.4.5.1 3.c-d convert twice)
 DD(v, w, e, c) == S!FullDataDesc(v, w, e, c)
 ED == S!EmptyDesc
 ElemDescs == {DD(V1, TRUE, TRUE, TRUE), DD(V2, FALSE, TRUE, TRUE), DD(V1, TRUE, TRUE, FALSE), DD(V2, TRUE, FALSE, TRUE),
@@ -228,6 +230,7 @@ LenDescs == {S!ValueDesc(v) : v \in {IntV(0), IntV(1), IntV(2), IntV(3), NumV(U3
             \cup {[ED EXCEPT !.hv = TRUE, !.v = v, !.hw = TRUE, !.w = w] : v \in {IntV(0), IntV(1), IntV(2)}, w \in BOOLEAN}
             \cup {[ED EXCEPT !.hw = TRUE, !.w = w] : w \in BOOLEAN}
             \cup {[ED EXCEPT !.he = TRUE, !.e = TRUE], [ED EXCEPT !.hc = TRUE, !.c = TRUE], [ED EXCEPT !.hc = TRUE, !.c = FALSE], ED}
+            \cup {S!ValueDesc(CoNum(1, 1)), [ED EXCEPT !.hv = TRUE, !.v = CoNum(1, 0), !.hw = TRUE, !.w = FALSE]}
 
 HistActions ==
     {[op |-> "assign", n |-> n, v |-> v] : n \in IdxNames, v \in {V1, V2}}
@@ -242,7 +245,9 @@ HistActions ==
 (* old and the new length: a step that shrinks a length above 2^30 to a      *)
 (* value below it would take minutes and is not generated                    *)
 SetsLength(a) == a.op \in {"assign", "define"} /\ a.n = LenName
-NewLenOf(a) == IF a.op = "assign" THEN a.v ELSE IF a.d.hv THEN a.d.v ELSE NumV(NaN)
+NewLenVal(a) == IF a.op = "assign" THEN a.v ELSE IF a.d.hv THEN a.d.v ELSE NumV(NaN)
+NewLenOf(a) == LET v == NewLenVal(a)           \* a scripted object stands for what its valueOf returns
+               IN  IF v.t # "cobj" THEN v ELSE IF v.vo.k = "ret" THEN v.vo.v ELSE NumV(NaN)
 HugeShrink(H, a) ==
     /\ SetsLength(a)
     /\ S!ArrLen(H, 3).c = "big"
